@@ -44,13 +44,17 @@ Res(call, s) ==
       [] s = "stopped" ->
             (CASE call = "Count" -> "-1" [] OTHER -> "ErrEngineInShutdown")
 
+\* a runnable accepted while the engine is stopping may never run (C03 promises execution only while the engine
+\* keeps running, C19 promises nothing about it): besides the two sides of the race, "accepted, not run"
+StoppingOnly(c) == IF c = "ExecuteOK" THEN {"ran-0-times"} ELSE {}
+
 Step(s2, c, r) == /\ ret = NoRet /\ depth < MaxDepth
                   /\ st' = s2 /\ ret' = [call |-> c, res |-> r] /\ depth' = depth + 1
 
 Start == st = "never" /\ Step("running", "Start", "booted")
 Call(c) == /\ c \in Calls /\ (c \in LoopCalls => st # "never")
            /\ IF st = "stopping"
-              THEN \E r \in {Res(c, "running"), Res(c, "stopped")} : Step(st, c, r)
+              THEN \E r \in {Res(c, "running"), Res(c, "stopped")} \cup StoppingOnly(c) : Step(st, c, r)
               ELSE Step(st, c, Res(c, st))
 \* Stop with a live context: nil once the engine has fully shut down
 StopLive == \/ st = "never" /\ Step("never", "StopLive", "ErrEmptyEngine")
